@@ -2,9 +2,9 @@
    - every frame the two-party system ever sends is well formed (so the wire round trip
      of Proofs/ErtmWire.v applies to it);
    - draining: from any reachable state every run of deliveries is finite, bounded by an
-     explicit measure (so writes that stop are followed by quiescence, where
-     ertm_exactly_once_in_order says everything has been delivered).
-   Same assumption as everywhere: no timer fires, reliable FIFO channels. *)
+     explicit measure (so writes that stop are followed by quiescence, where - if no timer
+     has fired - ertm_exactly_once_in_order says everything has been delivered).
+   Both hold with or without timer events; reliable FIFO channels. *)
 From Coq Require Import ZArith List Bool Lia.
 From BV Require Import Model.Crc16 Model.Ertm Proofs.ErtmSeg Proofs.Ertm Proofs.ErtmWire.
 Import ListNotations.
@@ -42,7 +42,7 @@ Proof. revert l. induction n; intros l H; cbn; [assumption|]. destruct H; [const
 Lemma po_ok e e' out : ep_ok e -> process_output e = (e', out) ->
   ep_ok e' /\ Forall frame_wf out.
 Proof.
-  intros [] H. unfold process_output in H. destruct (e_busy e).
+  intros [] H. unfold process_output in H. destruct (_ || _).
   - injection H as <- <-. split; [constructor; auto|constructor].
   - injection H as <- <-. split.
     + constructor; cbn; auto using Forall_skipn.
@@ -50,7 +50,7 @@ Proof.
     + apply iframes_wf; auto using Forall_firstn.
 Qed.
 
-Lemma update_ack_ok e n e' out : ep_ok e -> update_ack e n = (e', out) ->
+Lemma update_ack_ok e n fin e' out : ep_ok e -> update_ack e n fin = (e', out) ->
   ep_ok e' /\ Forall frame_wf out.
 Proof.
   intros Hk H. unfold update_ack in H. destruct (Z.ltb _ _).
@@ -98,8 +98,8 @@ Lemma on_frame_ok e f e' out sdus : ep_ok e -> on_frame e f = (e', out, sdus) ->
   ep_ok e' /\ Forall frame_wf out.
 Proof.
   intros Hk H. destruct f as [tx req s l data | func poll final req]; cbn [on_frame] in H.
-  - destruct (update_ack e req) as [e1 out1] eqn:Hu.
-    destruct (update_ack_ok _ _ _ _ Hk Hu) as [[] Ho].
+  - destruct (update_ack e req true) as [e1 out1] eqn:Hu.
+    destruct (update_ack_ok _ _ _ _ _ Hk Hu) as [[] Ho].
     destruct (negb (tx =? e_req e1)).
     + injection H as <- <- <-. split; [constructor; auto|assumption].
     + match type of H with (if ?c then _ else _) = _ => destruct c end.
@@ -109,13 +109,38 @@ Proof.
         -- constructor; cbn; auto. apply mod64_range.
         -- apply Forall_app. split; [assumption|]. constructor; [|constructor].
            cbn. split; [unfold RR; lia|apply mod64_range].
-  - destruct (update_ack e req) as [e1 out1] eqn:Hu.
-    destruct (update_ack_ok _ _ _ _ Hk Hu) as [[] Ho].
+  - destruct (update_ack e req final) as [e1 out1] eqn:Hu.
+    destruct (update_ack_ok _ _ _ _ _ Hk Hu) as [[] Ho].
     destruct (((func =? RR) || (func =? RNR)) && poll).
     + cbn in H. injection H as <- <- <-. split; [constructor; cbn; auto|].
       apply Forall_app. split; [assumption|]. constructor; [|constructor].
       cbn. split; [unfold RR; lia|assumption].
     + injection H as <- <- <-. split; [constructor; cbn; auto|assumption].
+Qed.
+
+Lemma send_rr_ok e fin e' out : ep_ok e -> send_rr e fin = (e', out) ->
+  ep_ok e' /\ Forall frame_wf out.
+Proof.
+  intros [] H. cbn in H. injection H as <- <-. split; [constructor; cbn; auto|].
+  constructor; [|constructor]. cbn. split; [unfold RR; lia|assumption].
+Qed.
+
+Lemma retx_timeout_ok e e' out : ep_ok e -> retx_timeout e = (e', out) ->
+  ep_ok e' /\ Forall frame_wf out.
+Proof.
+  intros Hk H. unfold retx_timeout in H. destruct (e_rrarm e).
+  - eapply send_rr_ok; [|exact H]. destruct Hk. constructor; cbn; auto.
+  - injection H as <- <-. split; [assumption|constructor].
+Qed.
+
+Lemma mon_timeout_ok e e' out : ep_ok e -> mon_timeout e = (e', out) ->
+  ep_ok e' /\ Forall frame_wf out.
+Proof.
+  intros Hk H. unfold mon_timeout in H.
+  destruct (e_mon e); try (injection H as <- <-; split; [assumption|constructor]).
+  destruct (_ || _).
+  - eapply send_rr_ok; [|exact H]. destruct Hk. constructor; cbn; auto.
+  - injection H as <- <-. split; [|constructor]. destruct Hk. constructor; cbn; auto.
 Qed.
 
 Fixpoint sdus_small (sched : list label) : Prop :=
@@ -148,6 +173,14 @@ Proof.
     + destruct (s_ba s) as [|f rest]; [constructor; auto|].
       destruct (on_frame (s_a s) f) as [[a out] sdus] eqn:E.
       destruct (on_frame_ok _ _ _ _ _ y_a0 E). constructor; cbn; auto. apply Forall_app; auto.
+    + destruct (retx_timeout (s_a s)) as [a out] eqn:E.
+      destruct (retx_timeout_ok _ _ _ y_a0 E). constructor; cbn; auto. apply Forall_app; auto.
+    + destruct (retx_timeout (s_b s)) as [b out] eqn:E.
+      destruct (retx_timeout_ok _ _ _ y_b0 E). constructor; cbn; auto. apply Forall_app; auto.
+    + destruct (mon_timeout (s_a s)) as [a out] eqn:E.
+      destruct (mon_timeout_ok _ _ _ y_a0 E). constructor; cbn; auto. apply Forall_app; auto.
+    + destruct (mon_timeout (s_b s)) as [b out] eqn:E.
+      destruct (mon_timeout_ok _ _ _ y_b0 E). constructor; cbn; auto. apply Forall_app; auto.
   - destruct l; cbn in Hw; tauto.
 Qed.
 
@@ -187,16 +220,16 @@ Definition measure (s : sys) : Z :=
 Lemma po_measure e e' out : process_output e = (e', out) ->
   3 * zlen (e_pend e') + weight out <= 3 * zlen (e_pend e).
 Proof.
-  unfold process_output. destruct (e_busy e); intros [= <- <-]; cbn; [lia|].
+  unfold process_output. destruct (_ || _); intros [= <- <-]; cbn [e_pend weight]; [lia|].
   set (k := Z.to_nat _). rewrite weight_iframes.
   rewrite <- (firstn_skipn k (e_pend e)) at 3. rewrite zlen_app.
   pose proof (zlen_nonneg (firstn k (e_pend e))). lia.
 Qed.
 
-Lemma update_ack_measure e n e' out : update_ack e n = (e', out) ->
+Lemma update_ack_measure e n fin e' out : update_ack e n fin = (e', out) ->
   3 * zlen (e_pend e') + weight out <= 3 * zlen (e_pend e).
 Proof.
-  unfold update_ack. destruct (Z.ltb _ _); [intros [= <- <-]; cbn; lia|].
+  unfold update_ack. destruct (Z.ltb _ _); [intros [= <- <-]; cbn [weight]; lia|].
   intros H. apply po_measure in H. exact H.
 Qed.
 
@@ -205,14 +238,17 @@ Lemma on_frame_measure e f e' out sdus :
   3 * zlen (e_pend e') + weight out + 1 <= 3 * zlen (e_pend e) + fweight f.
 Proof.
   destruct f as [tx req s l data | func poll final req]; cbn [on_frame sframe_ok fweight].
-  - intros H _. destruct (update_ack e req) as [e1 out1] eqn:Hu.
+  - intros H _. destruct (update_ack e req true) as [e1 out1] eqn:Hu.
     apply update_ack_measure in Hu.
     destruct (negb (tx =? e_req e1)); [injection H as <- <- <-; lia|].
     match type of H with (if ?c then _ else _) = _ => destruct c end.
-    + injection H as <- <- <-. cbn. lia.
-    + cbn in H. injection H as <- <- <-. rewrite weight_app. cbn. lia.
-  - intros H [-> ->]. destruct (update_ack e req) as [e1 out1] eqn:Hu.
-    apply update_ack_measure in Hu. cbn in H. injection H as <- <- <-. cbn. lia.
+    + injection H as <- <- <-. cbn [e_pend]. lia.
+    + cbn [send_rr] in H. injection H as <- <- <-. rewrite weight_app.
+      cbn [e_pend weight fweight]. lia.
+  - intros H [-> ->]. destruct (update_ack e req final) as [e1 out1] eqn:Hu.
+    apply update_ack_measure in Hu. cbn [Z.eqb RR RNR orb andb] in H.
+    replace ((0 =? 0) || (0 =? 2)) with true in H by reflexivity. cbn [andb] in H.
+    injection H as <- <- <-. cbn [e_pend]. lia.
 Qed.
 
 Definition is_delivery (l : label) : bool :=
@@ -242,10 +278,10 @@ Proof.
   destruct l; cbn [enabled] in He; try contradiction; cbn [step]; unfold measure.
   - destruct (s_ab s) as [|f rest]; [congruence|]. inversion Hab; subst.
     destruct (on_frame (s_b s) f) as [[b out] sdus] eqn:E.
-    pose proof (on_frame_measure _ _ _ _ _ E H1). cbn. rewrite weight_app. lia.
+    pose proof (on_frame_measure _ _ _ _ _ E H1). cbn [s_a s_b s_ab s_ba weight]. rewrite weight_app. lia.
   - destruct (s_ba s) as [|f rest]; [congruence|]. inversion Hba; subst.
     destruct (on_frame (s_a s) f) as [[a out] sdus] eqn:E.
-    pose proof (on_frame_measure _ _ _ _ _ E H1). cbn. rewrite weight_app. lia.
+    pose proof (on_frame_measure _ _ _ _ _ E H1). cbn [s_a s_b s_ab s_ba weight]. rewrite weight_app. lia.
 Qed.
 
 Lemma measure_nonneg s : 0 <= measure s.
@@ -272,7 +308,7 @@ Theorem ertm_drains mps_a win_a mps_b win_b sched more :
   let s := run (sys_init mps_a win_a mps_b win_b) sched in
   all_enabled s more -> zlen more <= measure s.
 Proof.
-  intros H s Hm. eapply drains_from; [|exact Hm]. apply inv_reachable. exact H.
+  intros H s Hm. eapply drains_from; [|exact Hm]. apply inv_reachable; assumption.
 Qed.
 
 (* and a non-quiescent state always has an enabled delivery *)
